@@ -4,7 +4,7 @@ use crate::dewey::{verif_in, DeweyVersion};
 
 /// Tokeniser: real `DeweyVersion::new` against `spec::tokenise` for every ASCII string.
 pub fn h_tokeniser() {
-    let s = sym::any_str("s", "ascii", 0, 5);
+    let s = sym::any_str("s", "ascii", 0, sym::bound(4, 6));
     let got = DeweyVersion::new(&s);
     let (gv, gr) = verif_in::parts(&got);
     sym::observe_usize("ncomps", gv.len());
@@ -20,4 +20,109 @@ pub fn h_tokeniser() {
     } else {
         sym::check("C01/tokeniser", want.nb_case | same);
     }
+}
+
+fn any_vec(tag: &str, maxlen: usize) -> Vec<i64> {
+    let n = sym::choose(tag, maxlen + 1);
+    let mut v = Vec::new();
+    let mut i = 0;
+    while i < n {
+        v.push(sym::any_i64(tag));
+        i += 1;
+    }
+    v
+}
+
+pub fn op_of(i: usize) -> crate::dewey::DeweyOp {
+    use crate::dewey::DeweyOp;
+    match i {
+        0 => DeweyOp::LE,
+        1 => DeweyOp::LT,
+        2 => DeweyOp::GE,
+        _ => DeweyOp::GT,
+    }
+}
+
+pub fn op_str(i: usize) -> &'static str {
+    match i {
+        0 => "<=",
+        1 => "<",
+        2 => ">=",
+        _ => ">",
+    }
+}
+
+/// Comparator: real `dewey_cmp` against zero-padded position-wise comparison, then revision,
+/// for arbitrary i64 component vectors and all four operators.
+pub fn h_cmp() {
+    let l = sym::bound(4, 6);
+    let a = any_vec("a", l);
+    let b = any_vec("b", l);
+    let ar = sym::any_i64("ar");
+    let br = sym::any_i64("br");
+    let op = sym::choose("op", 4);
+    let want = spec::op_holds(op, spec::cmp_ver(&a, ar, &b, br));
+    let da = verif_in::make(a, ar);
+    let db = verif_in::make(b, br);
+    let got = crate::dewey::dewey_cmp(&da, &op_of(op), &db);
+    sym::observe_bool("verdict", got);
+    sym::cover("true-verdict", got);
+    sym::cover("false-verdict", !got);
+    sym::check("C01/cmp", got == want);
+}
+
+/// Glue: Pattern(BASE op V).matches(BASE-W) equals the spec verdict on the spec tokenisation.
+pub fn h_glue() {
+    let n = sym::bound(2, 2);
+    let v = sym::any_str("v", "ascii", 0, n);
+    let w = sym::any_str("w", "ascii", 0, n);
+    let op = sym::choose("op", 4);
+    // '<' '>' '-' '{' '}' would change the pattern structure; they are C02/C04 territory
+    let mut clean = true;
+    for b in v.as_bytes().iter().chain(w.as_bytes().iter()) {
+        clean = clean & (*b != b'<') & (*b != b'>') & (*b != b'-') & (*b != b'{') & (*b != b'}');
+    }
+    sym::assume(clean & (v.as_bytes().is_empty() || v.as_bytes()[0] != b'='));
+    let pat = format!("pk{}{}", op_str(op), v);
+    let pkg = format!("pk-{}", w);
+    let p = crate::Pattern::new(&pat);
+    sym::check("C01/glue-compiles", p.is_ok());
+    let p = match p {
+        Ok(p) => p,
+        Err(_) => return,
+    };
+    let got = p.matches(&pkg);
+    sym::observe_bool("verdict", got);
+    let sv = spec::tokenise(v.as_bytes(), false);
+    let sw = spec::tokenise(w.as_bytes(), false);
+    let want = spec::op_holds(op, spec::cmp_ver(&sw.comps, sw.rev, &sv.comps, sv.rev));
+    let dubious = sv.nb_case | sw.nb_case;
+    if (sv.has_letter | sw.has_letter) && sym::kf_listed("letter-weight") {
+        let dv = spec::tokenise(v.as_bytes(), true);
+        let dw = spec::tokenise(w.as_bytes(), true);
+        let dev = spec::op_holds(op, spec::cmp_ver(&dw.comps, dw.rev, &dv.comps, dv.rev));
+        sym::known_finding("letter-weight", (got != want) & (got == dev));
+        sym::check("C01/glue", dubious | (got == want) | (got == dev));
+    } else {
+        sym::check("C01/glue", dubious | (got == want));
+    }
+    // best_match uses the same order
+    let pkg2 = format!("pk-{}", v);
+    let any = crate::Pattern::new("pk-*").unwrap();
+    let best = any.best_match(&pkg, &pkg2);
+    let ord = spec::cmp_ver(&sw.comps, sw.rev, &sv.comps, sv.rev);
+    let want_best: &str = if ord > 0 {
+        &pkg
+    } else if ord < 0 {
+        &pkg2
+    } else if pkg.as_bytes() < pkg2.as_bytes() {
+        &pkg
+    } else {
+        &pkg2
+    };
+    let okb = match best {
+        Some(b) => b == want_best,
+        None => false,
+    };
+    sym::check("C01/best", dubious | sv.has_letter | sw.has_letter | okb);
 }
